@@ -42,12 +42,13 @@ func (eng) CoqRequire(mode string) string {
 func (eng) CoqCaseType(mode string) string { return "Check_batching.case" }
 func (eng) CoqRun(mode string) string      { return "Check_batching.run" }
 func (eng) Rule(mode string) string {
-	return "batcher cases: random histories of Add/IsFull/Flush(CurrentBatch | current, stale, future, negative token | the token received last)/timer expiry/late callbacks (expiry committed, the batch handed out and the next one started before the old callback sends its token), sizes 0..5, with and without delay, flush results read back only at the end of the history (aliasing); reorder cases: stimuli add/flush/fire/hold-adder/hold-timeout/release/complete-k/read over max sizes 0..4, buffer sizes 0..4, including the pattern 'time-out flusher held between Flush and Reserve while the adder fills and flushes the next batch', completions in generated order, fetches that return an error with no / half / all of their results while other batches are in flight or follow, settled at the end; hammer cases: 2..4 adders x 20..60 items against 1..2 concurrent flushers. Non-trivial: at least two non-empty batches were handed out (batcher: two non-empty Flush results; reorder: two fetches; hammer: two batches); distinct by hash of the case."
+	return "batcher cases: random histories of Add/IsFull/Flush(CurrentBatch | current, stale, future, negative token | the token received last)/timer expiry/late callbacks (expiry committed, the batch handed out and the next one started before the old callback sends its token), sizes 0..5, with and without delay, flush results read back only at the end of the history (aliasing); reorder cases: stimuli add/flush/fire/hold-adder/hold-timeout/release/complete-k/read over max sizes 0..4, buffer sizes 0..4, including the pattern 'time-out flusher held between Flush and Reserve while the adder fills and flushes the next batch', completions in generated order, fetches that return an error with no / half / all of their results while other batches are in flight or follow, calls made with an already cancelled context (a FetchBatch that ignores it, or one that answers it with an error), settled at the end; hammer cases: 2..4 adders x 20..60 items against 1..2 concurrent flushers. Non-trivial: at least two non-empty batches were handed out (batcher: two non-empty Flush results; reorder: two fetches; hammer: two batches); distinct by hash of the case."
 }
 
 type op struct {
 	K string `json:"k"`
 	X int    `json:"x,omitempty"`
+	C int    `json:"c,omitempty"` // add / flush of the reorder cases: 1 = the call is made with an already cancelled context
 	Y int    `json:"y,omitempty"` // fail: what comes back with the error (0 nothing, 1 the first half of the results, 2 all of them)
 }
 
@@ -380,6 +381,7 @@ type fetchRec struct {
 	ch       chan struct{}
 	released bool
 	failMode int // -1: the fetch succeeds
+	ctxGone  bool // the context FetchBatch received was already cancelled
 }
 
 type rsys struct {
@@ -477,7 +479,7 @@ func execReorder(c *hx.Case) (*hx.Result, error) {
 	rf := batching.NewReorderFetcher(ctx, batching.NewReorderFetcherParams[int, int]{
 		Batcher: batching.NewEventBatcher[int](ctx, batching.EventBatcherParams{MaxDelay: delayOf(delay), MaxSize: maxSize, Timer: timer}),
 		FetchBatch: func(ctx context.Context, events []int) ([]int, error) {
-			rec := &fetchRec{events: append([]int{}, events...), ch: make(chan struct{}), failMode: -1}
+			rec := &fetchRec{events: append([]int{}, events...), ch: make(chan struct{}), failMode: -1, ctxGone: ctx.Err() != nil}
 			s.mu.Lock()
 			s.fetches = append(s.fetches, rec)
 			s.mu.Unlock()
@@ -520,17 +522,27 @@ func execReorder(c *hx.Case) (*hx.Result, error) {
 			}
 		}
 	}()
+	liveCtx, stopLive := context.WithCancel(context.Background())
+	defer stopLive()
+	goneCtx, cancelGone := context.WithCancel(context.Background())
+	cancelGone()
+	cancelFail := paramInt(c, "cancelfail", 0) == 1 // FetchBatch answers a cancelled context with an error and no results
 	adderOps := make(chan op)
 	ready := make(chan struct{})
 	go func() {
 		s.adderGid = goid()
 		close(ready)
 		for o := range adderOps {
+			// every call has its own (request scoped) context: live, or already cancelled when it reaches the fetcher
+			callCtx := liveCtx
+			if o.C == 1 {
+				callCtx = goneCtx
+			}
 			switch o.K {
 			case "add":
-				rf.Add(ctx, o.X)
+				rf.Add(callCtx, o.X)
 			case "flush":
-				rf.Flush(ctx)
+				rf.Flush(callCtx)
 			}
 			s.mu.Lock()
 			s.busy = false
@@ -577,9 +589,12 @@ func execReorder(c *hx.Case) (*hx.Result, error) {
 				nextItem++
 				o.X = nextItem // items are numbered in the order they are added: input order is numeric order
 				added = append(added, o.X)
-				stim = fmt.Sprintf("SAdd %d", o.X)
+				stim = fmt.Sprintf("SAdd %d %s", o.X, hx.CoqBool(o.C == 1))
 			} else {
-				stim = "SFlush"
+				stim = "SFlush " + hx.CoqBool(o.C == 1)
+			}
+			if o.C == 1 {
+				tags["r.call-with-cancelled-context"] = true
 			}
 			adderOps <- o
 		case "fire":
@@ -626,6 +641,10 @@ func execReorder(c *hx.Case) (*hx.Result, error) {
 				tags["r.completion-out-of-order"] = true
 			}
 			stim = fmt.Sprintf("SComplete %d", k)
+			if o.K == "complete" && cancelFail && o2[k].ctxGone {
+				o.K, o.Y = "fail", 0 // this FetchBatch gives up on a cancelled context: error, no results
+				tags["r.fetch-gave-up-on-cancelled-context"] = true
+			}
 			if o.K == "fail" {
 				mode := ((o.Y % 3) + 3) % 3
 				o2[k].failMode = mode
@@ -713,8 +732,15 @@ func execReorder(c *hx.Case) (*hx.Result, error) {
 	out := append([]int{}, s.out...)
 	errs := append([]int{}, s.errs...)
 	var batches [][]int
-	for _, f := range s.fetches {
+	fs := append([]*fetchRec{}, s.fetches...)
+	sort.SliceStable(fs, func(i, j int) bool { return first(fs[i].events) < first(fs[j].events) })
+	var ctxs []string
+	for _, f := range fs {
 		batches = append(batches, f.events)
+		ctxs = append(ctxs, fmt.Sprintf("(%d, %s)", first(f.events), hx.CoqBool(f.ctxGone)))
+		if f.ctxGone {
+			tags["r.batch-fetched-with-cancelled-context"] = true
+		}
 	}
 	busy := s.busy
 	s.mu.Unlock()
@@ -729,9 +755,9 @@ func execReorder(c *hx.Case) (*hx.Result, error) {
 	for i, b := range batches {
 		bs[i] = coqNList(b)
 	}
-	term := fmt.Sprintf("RCase %d %s %d %s %s %s %s %s %s %s", maxSize, hx.CoqBool(delay > 0), bufSize,
+	term := fmt.Sprintf("RCase %d %s %d %s %s %s %s %s %s %s %s", maxSize, hx.CoqBool(delay > 0), bufSize,
 		hx.CoqList(steps, "rstep"), coqNList(added), coqNList(out), hx.CoqList(bs, "list N"),
-		hx.CoqList(fails, "N * N"), coqNList(errs), hx.CoqBool(settled))
+		hx.CoqList(fails, "N * N"), coqNList(errs), hx.CoqList(ctxs, "N * bool"), hx.CoqBool(settled))
 	var tl []string
 	for t := range tags {
 		tl = append(tl, t)
@@ -741,7 +767,7 @@ func execReorder(c *hx.Case) (*hx.Result, error) {
 		tl = append(tl, "r.batches>=2")
 	}
 	return &hx.Result{Term: term, Nontrivial: len(batches) >= 2, Tags: tl,
-		Observed: map[string]any{"added": added, "output": out, "fetched_batches": batches, "failed_fetches": fails, "errors_received": errs, "settled": settled, "steps": obsLog}}, nil
+		Observed: map[string]any{"added": added, "output": out, "fetched_batches": batches, "failed_fetches": fails, "errors_received": errs, "fetch_contexts_cancelled": ctxs, "settled": settled, "steps": obsLog}}, nil
 }
 
 // ------------------------------------------------------------------ hammer kind
@@ -978,7 +1004,19 @@ func genReorder(r *hx.Rand) *hx.Case {
 			}
 		}
 	}
-	return mkCase("reorder", map[string]any{"max": maxSize, "delay": delay, "buf": bufSize}, ops)
+	// per-call contexts: some calls arrive with a context that is already cancelled
+	cancelFail := 0
+	if r.Chance(1, 2) {
+		cancelFail = 1
+	}
+	if r.Chance(1, 2) {
+		for i := range ops {
+			if (ops[i].K == "add" || ops[i].K == "flush") && r.Chance(1, 4) {
+				ops[i].C = 1
+			}
+		}
+	}
+	return mkCase("reorder", map[string]any{"max": maxSize, "delay": delay, "buf": bufSize, "cancelfail": cancelFail}, ops)
 }
 
 func (eng) Generate(mode, tier string, r *hx.Rand) []*hx.Case {
